@@ -8,6 +8,7 @@ import (
 	"os/exec"
 	"path/filepath"
 	"strings"
+	"sync"
 	"time"
 
 	"verifharness/internal/run"
@@ -80,3 +81,112 @@ func followMissing(c *run.Ctx) {
 		}
 	}
 }
+
+// followPresent: the other side of the same clause - following a file that CAN be opened is not a read error. The file
+// is followed (-f, with and without --tail and --poll), lines are appended until one of them comes out (so the follower
+// is known to be running), the file is removed, plain follow ends the stream, and the exit status is the scan's: 0 when
+// a line matched, 1 when the pattern matches nothing. Never 2.
+func followPresent(c *run.Ctx) {
+	if c.Shard != 0 {
+		return
+	}
+	dir, err := os.MkdirTemp(c.WorkDir, "followp")
+	if err != nil {
+		c.Inconclusive("scratch dir: " + err.Error())
+		return
+	}
+	defer os.RemoveAll(dir)
+	type shape struct {
+		flags   []string
+		match   string
+		wantOut bool
+	}
+	shapes := []shape{
+		{[]string{"-f"}, "line", true}, {[]string{"-f", "--tail"}, "line", true}, {[]string{"-f", "--poll"}, "line", true},
+		{[]string{"-f", "--poll", "--tail"}, "line", true}, {[]string{"-f"}, "ZZNOMATCHZZ", false}, {[]string{"-f", "--tail"}, "ZZNOMATCHZZ", false},
+	}
+	for i, sh := range shapes {
+		path := filepath.Join(dir, fmt.Sprintf("present%d.log", i))
+		if err := os.WriteFile(path, []byte("line 0\nline 1\n"), 0o644); err != nil {
+			c.Inconclusive("scratch file: " + err.Error())
+			return
+		}
+		args := append([]string{"--nocolor", "filter", "-m", sh.match, "--batch", "1"}, sh.flags...)
+		args = append(args, path)
+		cs := Case{Kind: "follow-present", Index: i, Seed: c.Seed, Tier: c.Tier}
+		c.Begin(cs, 5*time.Minute)
+		ctx, cancel := context.WithTimeout(context.Background(), 180*time.Second)
+		cmd := exec.CommandContext(ctx, c.RareBin, args...)
+		var so, se syncBuf
+		cmd.Stdout, cmd.Stderr = &so, &se
+		if err := cmd.Start(); err != nil {
+			cancel()
+			c.End()
+			c.Inconclusive("cannot run rare: " + err.Error())
+			continue
+		}
+		done := make(chan error, 1)
+		go func() { done <- cmd.Wait() }()
+		// append until the follower shows a line appended after its start (or, when nothing can match, for a fixed number of appends)
+		f, _ := os.OpenFile(path, os.O_APPEND|os.O_WRONLY, 0o644)
+		seen := false
+		for k := 0; k < 200 && !seen; k++ {
+			fmt.Fprintf(f, "line appended %d\n", k)
+			time.Sleep(50 * time.Millisecond)
+			if sh.wantOut {
+				seen = strings.Contains(so.String(), "line appended")
+			} else if k >= 12 {
+				break
+			}
+		}
+		f.Close()
+		os.Remove(path)
+		var werr error
+		select {
+		case werr = <-done:
+		case <-ctx.Done():
+			werr = <-done
+		}
+		timedOut := ctx.Err() != nil
+		cancel()
+		c.End()
+		c.Count("cli_runs", 1)
+		c.Count("follow_present_runs", 1)
+		what := "rare " + strings.Join(args[:len(args)-1], " ") + " FILE"
+		if timedOut {
+			c.Inconclusive(what + " did not end within 180 s after the file was removed (C15 owns that clause; not judged here)")
+			continue
+		}
+		if sh.wantOut && !seen {
+			c.Inconclusive(what + ": no appended line came out within 10 s of appends (C15 owns delivery; the exit status is not judged)")
+			continue
+		}
+		code := 0
+		if ee, ok := werr.(*exec.ExitError); ok {
+			code = ee.ExitCode()
+		} else if werr != nil {
+			c.Inconclusive("cannot run rare: " + werr.Error())
+			continue
+		}
+		if strings.Contains(se.String(), "panic:") {
+			c.Violation("crash:follow-present", what+" crashed: "+tail(se.String(), 1200), cs)
+			continue
+		}
+		want := 1
+		if sh.wantOut {
+			want = 0
+		}
+		if code != want {
+			c.Violation("exit-status:follow-present:"+run.Hash64(strings.Join(args[:len(args)-1], " ")), fmt.Sprintf("%s (the file exists, is followed and is then removed; no input failed): exit status %d, expected %d; stderr %s",
+				what, code, want, run.Q(tail(se.String(), 400))), cs)
+		}
+	}
+}
+
+type syncBuf struct {
+	mu sync.Mutex
+	b  bytes.Buffer
+}
+
+func (s *syncBuf) Write(p []byte) (int, error) { s.mu.Lock(); defer s.mu.Unlock(); return s.b.Write(p) }
+func (s *syncBuf) String() string             { s.mu.Lock(); defer s.mu.Unlock(); return s.b.String() }
